@@ -52,7 +52,25 @@ def check(run):
         body = ops[:len(ops) - len(tail)]
         s0["ops"] = [{"op": "gossip", "mode": "hold"}] + body + [{"op": "gossip", "mode": "reverse"}, {"op": "settle"}] + tail
         scns.append(s0)
-    run.log("%d session scripts from TLC (%d idle right after CONNECT, %d with a node failure)" % (len(scns), len(first_idle), len(pf)))
+    # "however long it idles in between": long-lived well-behaved clients - random walks of 14 steps of one connection that
+    # subscribes, is delivered to, pings, and idles for 0.5 / 0.95 keep-alives many times over; a client packet (PINGREQ) is
+    # inserted after every idle period, so the client is within its keep-alive throughout and must be served to the end
+    lg = sessionlib.gen(run, "c11long", [1], [1], "N11", 14, ["short", "edge"], [], maxidle=14, simulate="num=%d" % (400 if thorough else 40))
+    lg = [h for h in lg if h[0]["op"] == "connect" and sum(1 for e in h if e["op"] == "idle") >= 5]
+    nlong = 0
+    for h in lg:
+        h2 = []
+        for e in h:
+            h2.append(e)
+            if e["op"] == "idle":
+                h2.append({"op": "ping", "c": 1, "x": ""})
+        scns.append(sessionlib.build(h2, CAST))
+        nlong += 1
+    # the audit sink is a side channel: a share of the scripts runs with it unreachable on every node
+    for i, s in enumerate(scns):
+        if i % 6 == 5:
+            s["auditdown"] = True
+    run.log("%d session scripts from TLC (%d idle right after CONNECT, %d with a node failure, %d long-lived)" % (len(scns), len(first_idle), len(pf), nlong))
     tpath, crashes = brokerlib.execute(run, scns, "c11", shards=14, timeout=3000)
     if crashes:
         raise vlib.Inconclusive("broker driver died: %s" % crashes[0][2][-2000:])
@@ -65,7 +83,9 @@ def check(run):
         "distinct_nontrivial": len(scns),
         "rule": "scenario = TLC-generated script of depth %d for two connections on two nodes over connect / subscribe / ping / idle 0.5, 0.95, 2.1, 10 "
                 "keep-alives (max 3 per script, at any position incl. right after CONNECT) / DISCONNECT / close / malformed packet / second CONNECT / "
-                "publish, sampled evenly; plus scripts with a hosting-node failure (real 3.3 s purge wait); every scenario ends with a probe of all nodes"
+                "publish, sampled evenly; plus scripts with a hosting-node failure (real 3.3 s purge wait); plus long-lived single-connection walks of 14 "
+                "steps with >= 5 idle periods of 0.5 / 0.95 keep-alives each followed by a PINGREQ; one scenario in six with the audit sink "
+                "unreachable; every scenario ends with a probe of all nodes"
                 % (6 if thorough else 5),
         "events_validated": nev, "trace_spec_states": tstates, "rejections": len(rejected),
         "samples": [first_idle[0] if first_idle else hs[0], rest[len(rest) // 2], {"scenario": scns[-1]}],
